@@ -73,6 +73,7 @@ func run(r *eng.Runner) {
 	// the context also holds entries named like the parameters: an omitted parameter must not fall through to them
 	ctx := map[string]V{"tainted": StrV("<&>"), "lst": ListV(IntV(1), IntV(2)), "n": IntV(4), "dflt": StrV("cd"),
 		"p": StrV("ctx-p"), "q": StrV("ctx-q"), "r": StrV("ctx-r"), "s": StrV("ctx-s")}
+	ctx2 := prog.Vary(ctx) // every compiled program is executed a second time with this context
 	maxP := 3
 	if !r.Quick() {
 		maxP = 4
@@ -126,7 +127,7 @@ func run(r *eng.Runner) {
 						main = append(main, T("("), O(Call{Name: callName, Args: cargs}), T(")"), O(Call{Name: callName, Args: cargs}))
 						files["/main"] = main
 						label := fmt.Sprintf("params=%d defaults=%b args=%d route=%d", np, dmask, na, route)
-						c, ok := prog.Build(files, ctx, nil, "macro-binding", label, false)
+						c, ok := prog.BuildTwice(files, ctx, ctx2, nil, "macro-binding", label, false)
 						if !ok {
 							r.AddExtra("programs_outside_fragment", 1)
 							continue
@@ -173,10 +174,17 @@ func run(r *eng.Runner) {
 			{Import{File: "lib", Names: []ImportName{{Name: "mac2"}}}, bound("mac"), call("mac2")},
 			{Import{File: "lib", Names: []ImportName{{Name: "mac"}, {Name: "mac2", Alias: "other"}}}, call("mac"), call("other"), bound("mac2")},
 			{mk("alias", "local-alias", false), impAlias, call("alias"), bound("mac")},
+			// a later definition of a name replaces the earlier one, whatever kind either is
+			{mk("mac", "first", false), call("mac"), mk("mac", "second", false), call("mac")},
+			{Import{File: "lib", Names: []ImportName{{Name: "mac"}}}, call("mac"), mk("mac", "local-later", false), call("mac")},
+			{mk("mac", "local-first", false), call("mac"), Import{File: "lib", Names: []ImportName{{Name: "mac"}}}, call("mac")},
+			{mk("mac", "outer", false), For{Key: "i", Over: v("lst"), Body: []Node{mk("mac", "in-loop", false), call("mac")}}, call("mac")},
+			{mk("mac", "outer", false), With{Pairs: []Pair{{Name: "z", E: lits("1")}}, Body: []Node{mk("mac", "in-with", false), call("mac")}}, call("mac")},
+			{Macro{Name: "mac", Params: []Param{{Name: "p"}, {Name: "q", Default: lits("dq")}}, Body: []Node{T("<two:"), O(v("p")), O(v("q")), T(">")}}, Macro{Name: "mac", Params: []Param{{Name: "p"}}, Body: []Node{T("<one:"), O(v("p")), T(">")}}, call("mac")},
 			{With{Pairs: []Pair{{Name: "mac", E: lits("with-var")}}, Body: []Node{impAlias, O(v("mac")), call("alias")}}, bound("alias")},
 		}
 		for i, main := range mains {
-			c, ok := prog.Build(map[string][]Node{"/main": main, "/lib": lib, "/lib2": lib2}, ctx, nil, "macro-import-names", fmt.Sprint("import-names ", i), false)
+			c, ok := prog.BuildTwice(map[string][]Node{"/main": main, "/lib": lib, "/lib2": lib2}, ctx, ctx2, nil, "macro-import-names", fmt.Sprint("import-names ", i), false)
 			if !ok {
 				r.AddExtra("programs_outside_fragment", 1)
 				continue
@@ -197,7 +205,7 @@ func run(r *eng.Runner) {
 			{m, Autoescape{On: false, Body: []Node{O(call)}}},
 		}
 		for i, p := range progs {
-			c, ok := prog.Build(map[string][]Node{"/main": p}, ctx, nil, "macro-markup", fmt.Sprint("markup", i), false)
+			c, ok := prog.BuildTwice(map[string][]Node{"/main": p}, ctx, ctx2, nil, "macro-markup", fmt.Sprint("markup", i), false)
 			if ok {
 				r.Do(c)
 			}
